@@ -25,6 +25,7 @@ from ixai.imputer import MarginalImputer, DefaultImputer, TreeImputer   # noqa: 
 from ixai.storage import (BatchStorage, IntervalStorage, SequenceStorage, UniformReservoirStorage,   # noqa: E402
                           GeometricReservoirStorage, TreeStorage)
 from ixai.utils.wrappers.base import Wrapper   # noqa: E402
+from ixai.utils.wrappers.river import RiverWrapper   # noqa: E402
 
 
 class Model(Wrapper):
@@ -44,6 +45,22 @@ class Model(Wrapper):
 
 def loss(y, p):
     return (y - p["output"]) ** 2
+
+
+class LabelStub:
+    """A classifier stub whose predict_one returns string labels; the label set grows as the stream advances."""
+
+    def __init__(self, names, seed):
+        self.names, self.seed, self.t = names, seed, 0
+
+    def predict_one(self, x):
+        k = min(4, 1 + self.t // 12)
+        return "L%d" % (H(self.seed, "lab", tuple(sorted((str(a), str(b)) for a, b in x.items()))) % k)
+
+
+def label_loss(y, p):
+    labs = set(p) | {y}
+    return sum(((1.0 if lab == y else 0.0) - p.get(lab, 0.0)) ** 2 for lab in sorted(labs))
 
 
 def row(cfg, t):
@@ -103,6 +120,10 @@ def pre_activity(seed):
     np.random.permutation(r.randint(2, 6))
     for _ in range(r.randint(0, 5)):
         random.random()
+    # a RiverWrapper around a label-predicting model, used on a few instances
+    rw = RiverWrapper(lambda x: "L%d" % (int(x["q"]) % 4))
+    for t in range(r.randint(4, 9)):
+        rw({"q": t})
     # explainers of every class built from the documented required arguments alone (default storage / imputer)
     names = ["a", "b"]
     m = Model(names)
@@ -145,6 +166,12 @@ def run_config(cfg, mode):
         random.seed(cfg["seeds"][0])
         np.random.seed(cfg["seeds"][1])
         model = Model(names)
+        loss_fn = loss
+        stub = None
+        if cfg.get("model") == "riverlabel":
+            stub = LabelStub(names, cfg["stream"])
+            model = RiverWrapper(stub.predict_one)
+            loss_fn = label_loss
         storage = make_storage(cfg)
         ik = cfg.get("imputer")
         imputer = None
@@ -166,20 +193,23 @@ def run_config(cfg, mode):
             kw = {}
         if ek in ("pfi", "sage"):
             cls = IncrementalPFI if ek == "pfi" else IncrementalSage
-            e = cls(model_function=model, loss_function=loss, feature_names=names,
+            e = cls(model_function=model, loss_function=loss_fn, feature_names=names,
                     dynamic_setting=cfg.get("dynamic", True), smoothing_alpha=cfg.get("alpha", 0.1),
                     n_inner_samples=cfg.get("n_inner", 1), **skw, **kw)
         elif ek == "batch":
-            e = BatchSage(model_function=model, feature_names=names, loss_function=loss,
+            e = BatchSage(model_function=model, feature_names=names, loss_function=loss_fn,
                           n_inner_samples=cfg.get("n_inner", 1), **skw, **kw)
         elif ek == "interval":
-            e = IntervalSage(model_function=model, feature_names=names, loss_function=loss,
+            e = IntervalSage(model_function=model, feature_names=names, loss_function=loss_fn,
                              n_inner_samples=cfg.get("n_inner", 1), interval_length=cfg.get("interval_length", 3),
                              **({"storage_length": cfg["storage"].get("size", 3)} if not skw else skw), **kw)
         digests = []
         retained = []
         for t in range(1, cfg["T"] + 1):
             x, y = row(cfg, t)
+            if stub is not None:
+                stub.t = t
+                y = "L%d" % (H(cfg["stream"], "yl", t) % 3)
             if mode == "B":
                 retained.append(x)      # object identities: in A observations die young (addresses are reused),
                                         # in B every observation object stays alive (all identities distinct)
@@ -188,7 +218,7 @@ def run_config(cfg, mode):
                 storage.update(x, y)
                 if imputer is not None and t > 8:
                     preds = imputer.impute(names[: 1 + t % len(names)], x, 2)
-                    vals = {"p%d" % i: p["output"] for i, p in enumerate(preds)}
+                    vals = {"p%d:%s" % (i, k_): v_ for i, p in enumerate(preds) for k_, v_ in p.items()}
             elif ek == "batch":
                 if t % 5 == 0 or t == cfg["T"]:
                     vals = e.explain_one(x, y, original_sage=bool(t % 2), verbose=False)
